@@ -81,7 +81,7 @@ def evalFn (indef : Int) (ty : String) (vs : List Int) : Res Int :=
   else if ty = "average" then
     if vs.length = 0 then .panic "integer-divide-by-zero"
     else .ok (Int.tdiv (sumInts vs) vs.length)
-  else .panic "fatal-unknown-function"
+  else .panic "fatal"
 
 mutual
 /-- `SpeedCurve.Evaluate()` of the curve `id`. Returns the updated table (curve `Value`s and PID
